@@ -7,6 +7,16 @@ TB = ("Trusted: Lean 4.33 kernel (propext, Classical.choice, Quot.sound only); S
       "The theorems are about the Lean model; the model is tied to /repo by regenerated tables (translator) and by "
       "differential execution (harness) on every run.")
 claimed = {
+ "C10": dict(
+   text="Lean theorems about the model of UnmarshalAuthenticatorData / UnmarshalAttestedCredentialData / Marshal / extractCBOR: acceptance is "
+        "equivalent to the WebAuthn layout (32/1/4 bytes, attested credential data iff bit 6, one CBOR item iff bit 7), every field is the "
+        "corresponding slice of the input and the suffix is returned; Marshal(Unmarshal b) is the consumed prefix; Unmarshal(Marshal d ++ s) = (d, s) "
+        "for every well-formed d; every truncation inside the consumed prefix is rejected (via prefix-freeness of the CBOR decoder, proved by "
+        "induction on fuel for items of any size and nesting, with fuel sufficiency); flag accessors test bits 0/2/6/7 for all 256 bytes. "
+        "Tie: layout constants and accessor masks regenerated from source; the Lean parser and CBOR decoder are run against the real functions on "
+        "structured, prefix, mutated and random inputs, and the implementation's own Marshal(Unmarshal) is checked against the consumed prefix.",
+   ref="DESIGN.md §8 C10", technique="Lean 4 proof (layout iff, round trips, prefix-freeness by induction) + differential execution of the compiled model",
+   note="The attestation-object part (fmt/authData/attStmt members) is modelled (Cbor/AttObj.lean) and compared by the attObj stream; its theorems are listed under C02/C09."),
  "C12": dict(
    text="Lean theorems: the regenerated Hash/X509SignatureAlgorithm/verify-constructor tables equal the IANA tables for every integer "
         "(default branch included), and Verify asks exactly the standard (scheme, hash) primitive under the key's own material for every "
